@@ -67,7 +67,7 @@ func (rc *RunCtx) buildBank(heavy bool) {
 	msgBankHeavy = heavy
 }
 
-var junkKinds = []string{"flip", "truncate", "extend", "random", "cross-proto", "typeurl-swap", "unknown-typeurl", "empty-any", "from-index", "from-other", "flag-and-flip"}
+var junkKinds = []string{"flip", "truncate", "extend", "random", "cross-proto", "typeurl-swap", "unknown-typeurl", "empty-any", "from-index", "from-other", "flag-and-flip", "from-index-gap"}
 
 func driveJunk(rc *RunCtx) {
 	sc := rc.Sc
@@ -103,6 +103,9 @@ func driveJunk(rc *RunCtx) {
 		from := peers[r.IntN(len(peers))]
 		fromPID := from.PID
 		kind := junkKinds[r.IntN(len(junkKinds))]
+		if injected == 2 && len(pr.Olds) > 0 && w.OldPartyCount > len(pr.Olds) {
+			kind = "from-index-gap" // once in every resharing run in which the configured party count exceeds the old committee
+		}
 		// a template: an honest in-flight or delivered envelope addressed to v, else any bank message
 		var tmpl *Envelope
 		for _, e := range w.Inflight {
@@ -177,8 +180,31 @@ func driveJunk(rc *RunCtx) {
 					wire = nb
 				}
 			}
+		case "from-index-gap":
+			// resharing by a subset of the key holders: a sender index beyond the participating old committee
+			// but below the number of key holders, on a genuine old-committee message for a new member
+			done := false
+			if len(pr.Olds) > 0 && pr.N > len(pr.Olds) {
+				for _, e := range append(append([]*Envelope{}, w.Inflight...), w.Delivered...) {
+					if e.Junk || e.From >= len(pr.Olds) || e.To < len(pr.Olds) {
+						continue
+					}
+					v, from = w.Nodes[e.To], w.Nodes[e.From]
+					wire, bcast, typ = append([]byte{}, e.Wire...), e.Bcast, e.Type
+					idx := len(pr.Olds) + r.IntN(pr.N-len(pr.Olds))
+					fromPID = &tss.PartyID{MessageWrapper_PartyID: from.PID.MessageWrapper_PartyID, Index: idx}
+					done = true
+					if r.IntN(3) == 0 {
+						break
+					}
+				}
+			}
+			if !done {
+				fromPID = &tss.PartyID{MessageWrapper_PartyID: from.PID.MessageWrapper_PartyID, Index: 2 + r.IntN(6)}
+			}
 		case "from-index":
-			idx := []int{len(w.Nodes), len(w.Nodes) + 1, 1 << 30, 1<<31 - 1, -1, 0, v.PID.Index}[r.IntN(7)]
+			// (small indices matter too: just beyond a committee that is smaller than the configured party count)
+			idx := []int{len(w.Nodes), len(w.Nodes) + 1, 1 << 30, 1<<31 - 1, -1, 0, v.PID.Index, r.IntN(8), r.IntN(8), 2 + r.IntN(4)}[r.IntN(10)]
 			fromPID = &tss.PartyID{MessageWrapper_PartyID: from.PID.MessageWrapper_PartyID, Index: idx}
 		case "from-other":
 			o := peers[r.IntN(len(peers))]
@@ -242,10 +268,13 @@ func genJunk(check, tier string, seed uint64, run int) *Scenario {
 	ecEvery := 8
 	proto, _ := protoForRun(r, tier, run, ecEvery)
 	if strings.HasPrefix(proto, "ec-") && tier == "quick" {
-		proto = "ec-sign"
+		proto = []string{"ec-sign", "ec-reshare", "ec-sign", "ec-keygen"}[(run/ecEvery)%4]
 	}
 	p := map[string]interface{}{"proto": proto, "junk": 4 + r.IntN(8), "heavybank": tier == "thorough"}
 	nodes := fillProtoParams(r, tier, proto, p)
+	if proto == "ec-reshare" && tier == "quick" {
+		p["fullcount"] = true // the two ECDSA resharing runs of the quick tier: a subset of the key holders takes part
+	}
 	sc := &Scenario{Check: check, Kind: "junk", Seed: seed, Run: run, P: p}
 	sc.Sched = SchedConfig{Strategy: pickStr(r, "fifo", "random", "lifo"), PreStart: r.IntN(2) == 0, Victim: r.IntN(nodes)}
 	return sc
